@@ -122,12 +122,12 @@ def heavy_copies(rows, quick, rng):
             if special and budget[("g12s-s0", bits)] < (1 if bits == 256 else 0 if quick else 1):
                 budget[("g12s-s0", bits)] += 1
                 out.append(dict(row, hs=1, copy="sign"))
-            if "seeded" in cls and not special and budget[("g12s", row["name"])] < lim and budget[("g12s-all", bits)] < (2 if quick else 6):
+            if "seeded" in cls and not special and budget[("g12s", row["name"])] < lim and budget[("g12s-all", bits)] < (1 if quick else 6):
                 budget[("g12s", row["name"])] += 1
                 budget[("g12s-all", bits)] += 1
                 out.append(dict(row, hg=1, copy="gen"))
                 out.append(dict(row, hs=1, copy="sign"))
-                for i in alt_index(row, ["Q-", "s^0"] if quick else ["Q-", "s^0", "r^0", "h^0"]):
+                for i in alt_index(row, ["Q-"] if quick else ["Q-", "s^0", "r^0", "h^0"]):
                     out.append(dict(row, ha=[i], copy="alt%d" % i))
         elif op == "bign96":
             if budget["bign96"] < (2 if quick else 8) and "tape-zero" not in cls:
@@ -161,7 +161,9 @@ def run(ctx):
     rng = random.Random(int(ctx.seed) * 1000003 + 16)
     t0 = time.time()
     r = vlib.tlc("SchemeVectors", timeout=3000, extra=["-continue"], workers=WORKERS, quiet=True, env={"VSEL": tier})
-    failed = re.findall(r'name = "(\w+)"\s*\n/\\ ok = FALSE', r.out)
+    failed = re.findall(r'/\\ ok = FALSE\s*\n/\\ phase = \d+\s*\n/\\ name = "(\w+)"', r.out) + re.findall(r'name = "(\w+)"\s*\n/\\ ok = FALSE', r.out)
+    if "ok = FALSE" in r.out and not failed:
+        failed = ["?"]
     ev.cov["anchor_vectors_evaluated"] = max(0, (r.distinct - 1) // 2)
     if r.rc != 0 or failed or r.distinct < 3:
         ctx.note_inconclusive("specification anchors fail (specification error, no verdict): %s %s" % (failed, (r.violation or r.error or "")[:300]))
